@@ -1,5 +1,5 @@
 _c03_common = dict(harness="C03_properties.cpp", units=CORE_PROPS, unwind=26, object_bits=13, witness_any=True, checks="none", unwindset=["strlen.0:80"],
-                   timeout={"quick": 900, "thorough": 2400}, mem_gb=6)
+                   timeout={"quick": 900, "thorough": 2400}, mem_gb=3)
 _DELS = [OP_DEL_V, OP_DEL_E, OP_DEL_F, OP_DEL_C]
 _SWAPS = [OP_SWAP_V, OP_SWAP_E, OP_SWAP_F, OP_SWAP_C]
 PROPS["C03"] = dict(
